@@ -224,10 +224,16 @@ func runProperty(p *Prog, pc *PropConfig, cfg RunConfig, tags string, only strin
 		fv.activeProp = pc.ID
 		fv.setupStream()
 		if err := fv.translate(); err != nil {
+			tmplForFallback := ""
 			if c.Flags["replay"] != "" && len(strings.Fields(c.Flags["replay"])) == 1 {
+				tmplForFallback = c.Flags["replay"]
+			} else if propReplay[pc.ID] != "" {
+				tmplForFallback = propReplay[pc.ID]
+			}
+			if tmplForFallback != "" {
 				// the contract no longer fits the function (a name it mentions is gone, ...). Whether that is
 				// a harmless refactoring or a break of the property is decided by the property-level replay.
-				fv.replayTemplate = c.Flags["replay"]
+				fv.replayTemplate = tmplForFallback
 				o := &Obligation{Name: fv.Name + "#contract-applies", Kind: "contract", Props: []string{pc.ID}, Where: p.relPos(fn.Pos()), Src: err.Error(),
 					Reach: "true", Goal: "false", Func: fv.Name, fv: fv, candidate: true, Block: -1}
 				rf := replayFile{}
